@@ -140,13 +140,15 @@ def one_case(rep, spec, index):
     # ---- curves built from permeances in any unit
     perms = []
     vals = []
+    mixed_units = rng.random() < 0.2  # every Permeance object carries its own unit: they need not agree within a curve
     for c in comps:
         a, b = gen.gen_permeance_value(rng), gen.gen_permeance_value(rng)
         vals.append((a, b))
-        perms.append((gen.permeance_in_units(a, units, fc.mix.first_component), gen.permeance_in_units(b, units, fc.mix.second_component)))
+        u1, u2 = (rng.choice(gen.UNITS), rng.choice(gen.UNITS)) if mixed_units else (units, units)
+        perms.append((gen.permeance_in_units(a, u1, fc.mix.first_component), gen.permeance_in_units(b, u2, fc.mix.second_component)))
     cp = DiffusionCurve(mixture=fc.mix, membrane_name="M", feed_temperature=fc.t_feed, feed_compositions=comps, permeances=perms,
                         permeate_temperature=fc.tp if rng.random() < 0.5 else None)
-    rep.case(dict(case, part="from-permeances"), nontrivial=True, cls=f"from-permeances|{units}|{basis}")
+    rep.case(dict(case, part="from-permeances", mixed_units=mixed_units), nontrivial=True, cls=f"from-permeances|{'mixed' if mixed_units else units}|{basis}")
     rep.require("curve permeances are exposed in kg/(m2 h kPa)", all(p[i].units == Units.kg_m2_h_kPa for p in cp.permeances for i in (0, 1)), case, {"units": cp.permeances[0][0].units})
     for k, c in enumerate(comps):
         pf = [float(v) for v in get_partial_pressures(fc.t_feed, fc.mix, c, "NRTL")]
